@@ -52,6 +52,9 @@ def run_case(case: dict) -> dict:
     net1.add_node(rnode)
     net2.add_node(lnode)
     master, slave = rnode.nmt, lnode.nmt
+    hbcalls = []
+    master.add_heartbeat_callback(lambda st: hbcalls.append([1, st]))
+    master.add_hearbeat_callback(lambda st: hbcalls.append([2, st]))       # the old spelling of the same method
     ev = []
 
     def log(e, raised=False):
@@ -92,11 +95,13 @@ def run_case(case: dict) -> dict:
             if raised == "other":
                 ev[-1]["crash"] = True
         elif o == "hb":
+            del hbcalls[:]
             try:
                 net1.notify(0x700 + nid, bytearray([op["byte"]]), float(op.get("ts", 1)))
             except Exception:  # noqa
                 raised = True
-            log({"e": "hb", "byte": op["byte"]}, raised)
+            log({"e": "hb", "byte": op["byte"], "cbs": [list(c) for c in hbcalls],
+                 "ts": -1 if master.timestamp is None else int(master.timestamp)}, raised)
         elif o == "wait":
             res = {}
 
